@@ -338,6 +338,29 @@ def rand_etp(rng, bs, tp, symmetric_only):
         tp["extended_transform_parameters"] = e
 
 
+def mixed_etp(rng, bs, tp):
+    """An EXPLICIT extended_transform_parameters dictionary: mostly symmetric spellings (so that nothing forces
+    version 3), sometimes asymmetric."""
+    wi = int(tp.get("wavelet_index", 4))
+    r = rng.random()
+    if r < 0.45:
+        e = bs.ExtendedTransformParameters(asym_transform_index_flag=True, wavelet_index_ho=wi, asym_transform_flag=True, dwt_depth_ho=0)
+        if rng.random() < 0.3:
+            del e["asym_transform_flag"], e["dwt_depth_ho"]
+    elif r < 0.65:
+        e = bs.ExtendedTransformParameters(asym_transform_index_flag=False, asym_transform_flag=False)
+    elif r < 0.75:
+        e = bs.ExtendedTransformParameters(asym_transform_flag=True)  # dwt_depth_ho omitted: documented default 0
+    elif r < 0.9:
+        e = bs.ExtendedTransformParameters(asym_transform_index_flag=True, wavelet_index_ho=rng.randrange(0, 7))
+        if rng.random() < 0.5:
+            e["asym_transform_flag"] = True
+            e["dwt_depth_ho"] = rng.choice([0, 1])
+    else:
+        return rand_etp(rng, bs, tp, False)
+    tp["extended_transform_parameters"] = e
+
+
 def gen_hand(seed, I):
     """Serialisable hand-built description (pictures with default/minimal content; NOT necessarily
     valid for the validator): random data-unit lists, random explicit/AUTO/omitted fields."""
@@ -360,7 +383,10 @@ def gen_hand(seed, I):
             maybe(rng, pp, "profile", 3 if hq else 0, 0.7)
         elif explicit_version is not None:
             explicit_version = None
-        if rng.random() < 0.7:
+        # mixed: several sequence headers in ONE sequence, each with its own major_version status (AUTO / omitted /
+        # explicit 1, 2, 3, larger) in any order, pictures with explicit ETP dictionaries after each of them
+        mixed = rng.random() < 0.3
+        if rng.random() < (0.3 if mixed else 0.7):
             rand_header_presets(rng, bs, hdr)
         # small pictures (the default custom format is 640x480)
         hdr.setdefault("video_parameters", bs.SourceParameters())["frame_size"] = bs.FrameSize(
@@ -369,6 +395,11 @@ def gen_hand(seed, I):
         kinds = ["header"] + [rng.choice(["pic", "pic", "frag0", "fragd", "pad", "aux", "header"]) for _ in range(n)] + ["eos"]
         if rng.random() < 0.05:
             kinds = ["eos"]
+        if mixed:
+            kinds = []
+            for _ in range(rng.choice([2, 2, 3])):
+                kinds += ["header"] + [rng.choice(["pic", "pic", "pic", "pad", "aux"]) for _ in range(rng.choice([1, 1, 2]))]
+            kinds.append("eos")
         for i, k in enumerate(kinds):  # a data fragment needs the slice geometry of an earlier picture / first fragment
             if k == "fragd" and not any(x in ("pic", "frag0") for x in kinds[:i]) and rng.random() < 0.85:
                 kinds[i] = "frag0"
@@ -382,18 +413,30 @@ def gen_hand(seed, I):
                 pi["parse_code"] = PCs.sequence_header
                 if not omit_hdr:
                     du["sequence_header"] = copy.deepcopy(hdr)
+                    if mixed:
+                        pp = du["sequence_header"].setdefault("parse_parameters", bs.ParseParameters())
+                        r = rng.random()
+                        if r < 0.25:
+                            pp["major_version"] = af.AUTO
+                        elif r < 0.5:
+                            pp.pop("major_version", None)
+                        else:
+                            pp["major_version"] = rng.choice([1, 2, 3, 3, 3, 3, 4, 7])
             elif k == "pic":
                 pi["parse_code"] = PCs.high_quality_picture if hq else PCs.low_delay_picture
-                if rng.random() < 0.8:
+                if mixed or rng.random() < 0.8:
                     pic = bs.PictureParse()
                     du["picture_parse"] = pic
                     if rng.random() < 0.8:
                         pic["picture_header"] = bs.PictureHeader()
                         rand_af(rng, af, pic["picture_header"], "picture_number", lambda: rand_picnum(rng))
-                    if rng.random() < 0.7:
+                    if mixed or rng.random() < 0.7:
                         tp = bs.TransformParameters()
                         maybe(rng, tp, "wavelet_index", rng.randrange(0, 7), 0.6)
-                        rand_etp(rng, bs, tp, False)
+                        if mixed:
+                            mixed_etp(rng, bs, tp)
+                        else:
+                            rand_etp(rng, bs, tp, False)
                         pic["wavelet_transform"] = bs.WaveletTransform(transform_parameters=tp)
             elif k in ("frag0", "fragd"):
                 pi["parse_code"] = PCs.high_quality_picture_fragment if hq else PCs.low_delay_picture_fragment
@@ -872,13 +915,24 @@ def oracle_stream(I, ctx, gen, seed, stream, data, out, offs):
                          (du.get("fragment_parse", {}).get("transform_parameters"), odu.get("fragment_parse", {}).get("transform_parameters"))):
                 if a is None or b is None or "extended_transform_parameters" not in a:
                     continue
-                if "extended_transform_parameters" not in b and is_asymmetric(fd, a):
-                    e = a["extended_transform_parameters"]
-                    for k in e:
+                if "extended_transform_parameters" in b:
+                    continue  # coded: compare_desc has compared every explicit key with what was read back
+                e = a["extended_transform_parameters"]
+                hdr_units = [x for x in seq.get("data_units", [])[:ui]
+                             if int(x.get("parse_info", {}).get("parse_code", doc_default(fd, fd.ParseInfo, "parse_code"))) == int(PCs.sequence_header)]
+                in_force_auto = bool(hdr_units) and is_auto(
+                    af, hdr_units[-1].get("sequence_header", {}).get("parse_parameters", {}), "major_version")
+                why = None
+                if is_asymmetric(fd, a):
+                    why = ("the entry describes the asymmetric transform (wavelet_index, wavelet_index_ho, dwt_depth_ho) = %r "
+                           "(omitted fields at their documented defaults)" % (coded_transform(fd, a),))
+                elif not in_force_auto:
+                    why = "the sequence header in force has an explicit major_version (or there is none)"
+                if why:
+                    for k in (list(e) or ["<empty dict>"]):
                         viol.append(("explicit-value-missing",
-                                     "seq %d unit %d: extended_transform_parameters[%r] = %r was dropped although the entry describes the "
-                                     "asymmetric transform (wavelet_index, wavelet_index_ho, dwt_depth_ho) = %r (omitted fields at their "
-                                     "documented defaults)" % (si, ui, k, e[k], coded_transform(fd, a)), None, repr(e[k])))
+                                     "seq %d unit %d: extended_transform_parameters[%r] = %r was dropped although %s"
+                                     % (si, ui, k, e.get(k), why), None, repr(e.get(k))))
     # ---- (2) automatic major_version = the requirement computed independently from the description
     for si, seq in enumerate(in_seqs):
         want = None
